@@ -32,8 +32,8 @@ def gen_case(rng, tier):
     col = [rng.randrange(nlab) for _ in range(n)]
     if rng.random() < 0.3:
         col[rng.randrange(n)] = None
-    kind = rng.choice([k for k in ["int", "float", "str", "dt", "dttz", "cat", "bool"] if api.kind_ok(col, k)])
-    kcont = "pandas" if kind == "cat" else rng.choice(KEY_CONT if kind in ("int", "float", "str", "dt", "dttz") else ["numpy", "pandas"])
+    kind = rng.choice([k for k in ["int", "float", "str", "dt", "dttz", "date", "cat", "bool"] if api.kind_ok(col, k)])
+    kcont = "pandas" if kind == "cat" else rng.choice(KEY_CONT if kind in ("int", "float", "str", "dt", "dttz", "date") else ["numpy", "pandas"])
     vdt = rng.choice(VDT)
     base = vdt.split("[")[0]
     has_null = base in ("float64", "float32", "m8", "M8") and rng.random() < 0.5
